@@ -93,6 +93,13 @@ where
 	pub fn call(&self, data: T) -> U {
 		(self.0.get())(data)
 	}
+
+	/// Verification seam: the fn currently held, so that a harness can wrap it in a recorder.
+	#[cfg(watchexec_verif)]
+	#[must_use]
+	pub fn verif_get(&self) -> Arc<dyn (Fn(T) -> U) + Send + Sync> {
+		self.0.get()
+	}
 }
 
 // the derive adds a T: Clone bound
